@@ -342,4 +342,17 @@ func runC11(r *rt.Runner) {
 		}
 		c.Feature("c11:edge")
 	})
+	// --- long files: diagnostics (and their rendered context lines) at three- and four-digit line numbers ------------
+	r.Do("long-files", func(c *rt.C) {
+		for _, n := range []int{98, 99, 100, 101, 997, 998, 999, 1000, 1001, 1002, 1100, 9999, 10001} {
+			body := strings.Repeat("a = 1\n", n)
+			for _, tail := range []string{"a = \n", "a = [\n", "}\n", "a = \"x\n", "b {\n", "a = 1 é é\n", "a.\n"} {
+				c11Check(c, body+tail, "long-file")
+				c11Check(c, body+tail+strings.Repeat("c = 2\n", 5), "long-file")
+			}
+			// several errors, far apart
+			c11Check(c, "a = \n"+body+"a = \n"+body+"a = \n", "long-file")
+		}
+		c.Feature("c11:long-file")
+	})
 }
